@@ -42,12 +42,14 @@ CHECKS = {
             'trusted: probes via initial_context; invariant-block order between states canonicalised', '§4 C08'),
     'C09': ('exploration', 'runtime differential monitor: contract-checked run vs ignore_contract=True run in lock-step',
             'Generated contract charts (incl. would-fail conditions, time predicates) and the two shipped contract charts; '
-            'steps, contexts, code sequence and meta-event streams compared; zero condition evaluations when ignored.',
+            'steps, contexts, code sequence and meta-event streams compared; zero condition evaluations when ignored; one state in '
+            'five uses one code text as precondition, entry code and guard.',
             'trusted: lock-step projection; conditions side-effect free apart from probes', '§4 C09'),
     'C10': ('exploration', 'runtime monitor: meta-event stream checker (listener + recording property statechart), k-th-event fail-fast fault plan, with/without differential',
             'The stream received by a listener and by a bound property statechart must equal the stream implied by the '
             'MacroStep, interleaved with the code probes; a property chart turning final at meta-event k must make that call '
-            'raise with the log ending at k; never-final property charts must not change the run.',
+            'raise with the log ending at k; never-final property charts must not change the run; a timeout property chart (delayed '
+            'event sent to itself, plain bind form) must fail exactly at the first meta-event past its deadline.',
             'trusted: expected-stream construction from the MacroStep (itself validated by C03)', '§4 C10'),
     'C13': ('exploration', 'runtime monitor: logged predicate values vs time-stamp model, clock moved between and inside steps',
             'time/after/idle values logged by guards and contract conditions are recomputed exactly from observed entry/'
@@ -67,7 +69,7 @@ CHECKS = {
             'trusted: the dict model (docstrings as specification)', '§4 C16'),
     'C17': ('exploration', 'runtime differential monitor with name map: original vs rename_state-d chart, guest alone vs guest plugged with copy_from_statechart',
             'Order-preserving renamings of random subsets (optionally after a warm-up execution) and host/guest pairs (whole chart or '
-            'sub-tree of a donor), compared in lock-step up to the renaming.',
+            'sub-tree of a donor; one guest in seven declares a transition twice), compared in lock-step up to the renaming.',
             'trusted: lock-step projection, fixed-width naming scheme', '§4 C17'),
     'C14': ('exploration', 'runtime monitor: scripted time source (module attribute replaced from outside) + exact Fraction model / bounds',
             'Random clock-operation sequences against an exact rational model (real time moving only between operations), against '
